@@ -174,7 +174,7 @@ PROPS = {
     "C09": dict(
         claim="theorem truncated_stream_rejected (all configurations, streams and cut positions): if the validator accepts every event of p ++ e :: rest and e is not the end-of-document, "
               "then p followed by the decoder's end-of-document is rejected, exactly at that final event (so a cut between two tokens never yields a silent success and everything decoded before it was delivered); "
-              "theorem cbe_truncation_delivers_a_prefix (every byte string, every cut position, all 30 token kinds of the CBE decoder model): the events delivered for the first k bytes - not counting the end-of-document the decoder adds when it stops between tokens - are a prefix of the events delivered for the whole input (the decoder reads a prefix code: CE/Cbe/Prefix.lean, ext_decodeOne, ext_decodeChunks by induction over chunk chains, decodeLoop_prefix by induction over the document); theorems posInt_cut_rejected_partial / negInt_cut_rejected_partial: every strict prefix of an encoded integer of any width makes the CBE token decoder fail with end-of-file and deliver nothing. "
+              "theorem cbe_truncation_delivers_a_prefix (every byte string, every cut position, all 30 token kinds of the CBE decoder model): the events delivered for the first k bytes - not counting the end-of-document the decoder adds when it stops between tokens - are a prefix of the events delivered for the whole input (the decoder reads a prefix code: CE/Cbe/Prefix.lean, ext_decodeOne, ext_decodeChunks by induction over chunk chains, decodeLoop_prefix by induction over the document), and a document that decodes without error, cut anywhere, stops cleanly between two tokens or fails with end-of-input, never with another error (cbe_truncation_fails_only_with_end_of_input); theorems posInt_cut_rejected_partial / negInt_cut_rejected_partial: every strict prefix of an encoded integer of any width makes the CBE token decoder fail with end-of-file and deliver nothing. "
               "Harness: every cut position (all, or 120 evenly spaced ones for long documents) of generated valid CBE documents and of CTE documents whose top-level value is a container, untyped and typed templates: "
               "the unmarshal call must fail, and the partial value must be a prefix of the full value (lists by prefix, maps by sub-map, structs field-wise, decoded scalars unchanged; for CTE one trailing scalar cut inside its token may differ); "
               "the CBE decoder model is compared with the implementation at random cuts (CBE.DEC)",
